@@ -72,7 +72,7 @@ class C01(Prop):
         return ic.iso_request(case)
 
     def compare(self, case, io, mo):
-        return ic.compare_xr(io, mo, exact=case["stream"] == "exact")
+        return ic.compare_xr(io, mo, exact=case["stream"] == "exact", with_r=False)  # r is C12's business
 
     def oracle(self, case, io):
         if "err" in io:
